@@ -70,6 +70,18 @@ struct Preempt {
 extern Preempt g_pre;
 void preempt_install();
 
+// ---- debugging aid (imbsim blame): single-step library call number `call_no` and report the instruction after which
+// the 8 bytes `val` first appear at `addr`
+struct Watch {
+        uint64_t call_no = 0;    // g_calls_total value of the call to step (0 = off)
+        uint64_t addr = 0, val = 0;
+        uint64_t hit_rip = 0, prev_rip = 0, steps = 0;
+        int active = 0;
+};
+extern Watch g_watch;
+// last stack residue seen by the C13 scanner (absolute address, value, call number)
+extern Watch g_last_residue;
+
 template <class T> static inline uint64_t to_u64(T x)
 {
         if constexpr (std::is_pointer<T>::value)
